@@ -2,8 +2,16 @@
    [close x y]: x and y agree to relative 1e-8 (the tolerance the property states);
    [pair_ok k a b]: executable test that the transformed run's value a agrees with k times the
    base run's value b (k = 1 for intensive quantities, k = water factor for extensive ones). *)
-From Coq Require Import QArith Qabs Lqa.
+From Coq Require Import QArith Qabs Lqa Bool ZArith.
 Open Scope Q_scope.
+
+(* exact value of a binary64 number m * 2^e as shipped by the harness *)
+Definition D (m e : Z) : Q :=
+  match e with
+  | Z0 => m # 1
+  | Zpos p => (m * 2 ^ (Zpos p)) # 1
+  | Zneg p => m # (2 ^ p)
+  end.
 
 Definition tol : Q := 1 # 100000000.
 
@@ -32,6 +40,33 @@ Proof.
       apply Qlt_le_weak in L. apply Qle_bool_iff in L. congruence. }
     destruct H as [H|H]; [exact H|].
     eapply Qle_trans; [exact H|]. apply Qmult_le_l; [reflexivity|assumption].
+Qed.
+
+(* Saturation indices and log activities are base-10 logarithms of the intensive quantity (the
+   saturation ratio IAP/K, the activity); they vanish at equilibrium, where "relative to the value
+   of the logarithm" is meaningless.  For these columns agreement of the underlying ratio to relative
+   1e-8 is accepted as well, tested as |a - b| <= 4.3429e-9 (a rational lower bound of 1e-8 / ln 10;
+   first order in the difference; this bound itself is not derived in Coq). *)
+Definition log_tol : Q := 43429 # 10000000000000.
+
+Definition log_ok (a b : Q) : bool := Qle_bool (Qabs (a - b)) log_tol.
+
+Definition cell_ok (is_log : bool) (k a b : Q) : bool :=
+  pair_ok k a b || (is_log && log_ok a b).
+
+Lemma cell_ok_sound l k a b : cell_ok l k a b = true -> close a (k * b) \/ (l = true /\ Qabs (a - b) <= log_tol).
+Proof.
+  unfold cell_ok. intros H. apply Bool.orb_true_iff in H as [H|H].
+  - left. apply pair_ok_sound; exact H.
+  - right. apply Bool.andb_true_iff in H as [H1 H2]. split; [exact H1|].
+    apply Qle_bool_iff in H2. exact H2.
+Qed.
+
+Lemma pair_ok_refl a : pair_ok 1 a a = true.
+Proof.
+  apply pair_ok_complete. left.
+  assert (E : a - 1 * a == 0) by ring. rewrite E. simpl.
+  apply Qmult_le_0_compat; [discriminate|apply Qabs_nonneg].
 Qed.
 
 (* identical values always pass, whatever their size (non-vacuity of the test) *)
